@@ -23,6 +23,7 @@ type pProfile struct {
 	runs      bool // run-heavy data and geometry (C19)
 	wrap      bool // Wrap scripts (C08)
 	bigWin    bool // prefer WindowSize >= BufferSize (C12 literal clause)
+	twin      bool // compare with a fresh parser after every Reset (C13)
 }
 
 func (pf pProfile) withKinds(k ...string) pProfile { pf.kinds = k; return pf }
@@ -119,7 +120,7 @@ func genPCfg(r *rng, kind string, pf pProfile) pcfg {
 		fs := kindFields[kind]
 		k := fs[r.intn(len(fs))]
 		if k == "Cost" {
-			c.cost = r.pickS("x", "xzcost", "XZCost ")
+			c.cost = r.pickS("x", "xzcost", "XZCost_")
 		} else {
 			c.f[k] = r.pick(0, -1, -100, 1<<31, 1<<32-8, 1<<32-7, 1<<40, 9, 25, 129)
 			// keep table sizes small enough to run
@@ -175,7 +176,12 @@ func genPScript(r *rng, pf pProfile, id string, cnt counters, emit func(line, ou
 	kind := pf.kinds[r.intn(len(pf.kinds))]
 	cfg := genPCfg(r, kind, pf)
 	e, st := newPExec(cfg, cnt)
+	e.twinOn = pf.twin
+	if pf.twin && st == "ok" {
+		e.twin, _ = cfg.toLz().NewParser()
+	}
 	emit(e.header(id), fmt.Sprintf("S %s %s", id, st))
+	e.lines = append(e.lines, e.header(id))
 	cnt.inc("p.script." + kind)
 	if st != "ok" {
 		cnt.inc("p.cfg.rejected")
